@@ -431,7 +431,8 @@ RunRule(k, S0, reason, inp) ==
            Finish([S1 EXCEPT !.skipped = @ \cup {c}], k, VPropagated, FALSE, ideps)
          ELSE IF /\ d.tool \in {"shell", "phony"} /\ d.amo /\ priorDue /\ prior.val.k = "SuccessfulCommand"
                  /\ \A i \in 1..Len(vals) : vals[i].k # "MissingOutput"
-                 /\ \A j \in 1..Len(d.outs) : IsVirtual(d.outs[j]) \/ Exists(S1.fs, PathOf(d.outs[j]))
+                 (* (the record of a plain virtual output is the all-zero "missing" record: with one, never) *)
+                 /\ \A j \in 1..Len(d.outs) : IF IsVirtual(d.outs[j]) THEN IsTimestamp(d.outs[j]) ELSE Exists(S1.fs, PathOf(d.outs[j]))
          THEN  \* allow-modified-outputs: just refresh the recorded output infos, run nothing
            Finish(S1, k, VSuccess([j \in 1..Len(d.outs) |-> OutInfo(S1.fs, d.outs[j])]), FALSE, ideps)
          ELSE
@@ -532,8 +533,16 @@ ReachableFileOutputs(k0) ==
   LET roots == IF k0.t = "T" THEN SeqToSet(desc.targets[k0.n]) ELSE {k0.n}
       ns == ReachNodes(roots, Cardinality(Cmds) + 1)
   IN {n \in ns : ShellProducer(n) # "" /\ NodeRec(n).kind = "file" /\ ~IsMutated(n)}     \* (no promise for files modified in place)
-OutputsClean ==       \* (a build in which the delegate refused a command promises nothing; the NEXT build must repair it)
+RECURSIVE Upstream(_,_)
+Upstream(cs, n) == IF n = 0 THEN cs ELSE
+  Upstream(cs \cup UNION {Producers(x) : x \in UNION {SeqToSet(Cmd(c).ins) : c \in cs}}, n - 1)
+(* (outputs at or below an allow-modified-outputs command are held to OutputsCleanStrict on the pinned scenario only:  *)
+(* finding S19 - such a command does not re-run when an input changes)                                                *)
+AmoTainted(n) == \E c \in Upstream({ShellProducer(n)}, Cardinality(Cmds)) : Cmd(c).amo
+OutputsCleanStrict ==
   (IsBuild /\ last.ok /\ last.dskipped = {}) => \A n \in ReachableFileOutputs(last.k) : FileText(fs, PathOf(n)) = CleanText(n)
+OutputsClean ==       \* (a build in which the delegate refused a command promises nothing; the NEXT build must repair it)
+  (IsBuild /\ last.ok /\ last.dskipped = {}) => \A n \in ReachableFileOutputs(last.k) : AmoTainted(n) \/ FileText(fs, PathOf(n)) = CleanText(n)
 
 (* C09: a build right after a successful build of the same key, nothing changed in between, runs nothing *)
 (* (always-out-of-date commands and stale-file removal excepted)                                          *)
@@ -543,9 +552,6 @@ NullBuildRunsNothing ==
 
 (* C10: a command runs only if none of the commands it consumes (transitively) failed or was skipped in this build *)
 FailedNow == {c \in RanSet : StatusOf(c) = "Failed"} \cup last.skipped
-RECURSIVE Upstream(_,_)
-Upstream(cs, n) == IF n = 0 THEN cs ELSE
-  Upstream(cs \cup UNION {Producers(x) : x \in UNION {SeqToSet(Cmd(c).ins) : c \in cs}}, n - 1)
 StrictUpstream(c) == Upstream(UNION {Producers(x) : x \in SeqToSet(Cmd(c).ins)}, Cardinality(Cmds))
 NonPhony(cs) == {c \in cs : Cmd(c).tool # "phony"}
 OrderingOnly(c) == Cmd(c).tool \in {"phony", "symlink"}     \* these tools never read their inputs (symlink inputs are must-follow)
